@@ -533,7 +533,10 @@ class FuncAlias(Structured):
         elif isinstance(t, ast.Attribute):
             p = self.place(t)
             base = self.val(t.value, st)
-            if not (isinstance(t.value, ast.Name) and t.value.id == 'self' and self.is_method):
+            # `X.dtype = np.dtype(X.dtype)` re-binds the attribute to an equal value (np.dtype of a dtype is that dtype): nothing observable changes
+            same_value = isinstance(stmt, ast.Assign) and isinstance(stmt.value, ast.Call) and U(stmt.value.func) in ('np.dtype', 'numpy.dtype') \
+                and len(stmt.value.args) == 1 and U(stmt.value.args[0]) == U(t)
+            if not (isinstance(t.value, ast.Name) and t.value.id == 'self' and self.is_method) and not same_value:
                 self.site(stmt, 'attribute store `%s = ...`' % U(t), base.own)
             if p:
                 st[p] = v
